@@ -38,17 +38,18 @@ impl Flag {
 }
 
 pub use ax::errs;
-pub uninterp spec fn fatal(log: Seq<StatType>) -> bool;    // some Fatal entry (Kani full_collector_errors)
+pub uninterp spec fn fatal(log: Seq<StatType>) -> bool;
+pub uninterp spec fn rdhs_in(log: Seq<StatType>) -> bool;   // some RDH was counted (RdhStats::rdhs_seen > 0)    // some Fatal entry (Kani full_collector_errors)
 
 pub struct ErrIter;
 pub struct ErrorStats;
 impl ErrorStats { #[verifier::external_body] pub fn errors_as_slice_iter(&self) -> (r: ErrIter) { unimplemented!() } }
 
-pub struct StatsCollector { pub log: Ghost<Seq<StatType>>, pub finalized: Ghost<Seq<bool>>, pub es: ErrorStats, pub written: Ghost<Seq<(DataOutputMode, DataOutputFormat)>> }
+pub struct StatsCollector { pub log: Ghost<Seq<StatType>>, pub finalized: Ghost<Seq<bool>>, pub es: ErrorStats, pub written: Ghost<Seq<(DataOutputMode, DataOutputFormat, nat)>>, pub customs: Ghost<nat> }
 impl StatsCollector {
     #[verifier::external_body]
     pub fn collect(&mut self, s: StatType)
-        ensures final(self).log@ == old(self).log@.push(s), final(self).finalized == old(self).finalized, final(self).written == old(self).written,
+        ensures final(self).log@ == old(self).log@.push(s), final(self).finalized == old(self).finalized, final(self).written == old(self).written, final(self).customs == old(self).customs,
             errs(final(self).log@) == errs(old(self).log@) + (if s is Error { 1int } else { 0 }),
             fatal(final(self).log@) == (fatal(old(self).log@) || s is Fatal),
     { unimplemented!() }
@@ -58,23 +59,24 @@ impl StatsCollector {
     #[verifier::external_body] pub fn hbfs_seen(&self) -> (r: u32) { unimplemented!() }
     #[verifier::external_body]
     pub fn finalize(&mut self, mute_errors: bool)
-        ensures final(self).log == old(self).log, final(self).finalized@ == old(self).finalized@.push(mute_errors), final(self).written == old(self).written
+        ensures final(self).log == old(self).log, final(self).finalized@ == old(self).finalized@.push(mute_errors), final(self).written == old(self).written, final(self).customs == old(self).customs
     { unimplemented!() }
     pub fn error_stats(&self) -> (r: &ErrorStats) { &self.es }
     /// comparison with the statistics read from a file (unit v_collector_validate)
     #[verifier::external_body]
     pub fn validate_other_stats(&self, other: &StatsCollector, mute_errors: bool) -> (r: Result<(), ReadErr>) ensures r is Err == stats_mismatch(self.log@) { unimplemented!() }
-    #[verifier::external_body] pub fn any_rdhs_seen(&self) -> (r: bool) { unimplemented!() }
+    #[verifier::external_body] pub fn any_rdhs_seen(&self) -> (r: bool) ensures r == rdhs_in(self.log@) { unimplemented!() }
     /// custom checks on the collected statistics may add errors (E9001.., Kani full_validate_custom_stats), never remove any
     #[verifier::external_body]
     pub fn validate_custom_stats(&mut self, cfg: &Cfg)
-        ensures errs(final(self).log@) >= errs(old(self).log@), fatal(final(self).log@) == fatal(old(self).log@), final(self).finalized == old(self).finalized, final(self).written == old(self).written
+        ensures errs(final(self).log@) >= errs(old(self).log@), fatal(final(self).log@) == fatal(old(self).log@), rdhs_in(final(self).log@) == rdhs_in(old(self).log@), final(self).finalized == old(self).finalized, final(self).written == old(self).written,
+            final(self).customs@ == old(self).customs@ + 1
     { unimplemented!() }
     #[verifier::external_body] pub fn unique_error_codes_as_slice(&self) -> (r: &[u64]) { unimplemented!() }
     /// serialises the statistics and writes them out (unit v_write_stats)
     #[verifier::external_body]
     pub fn write_stats(&mut self, mode: &DataOutputMode, format: DataOutputFormat)
-        ensures final(self).written@ == old(self).written@.push((*mode, format)), final(self).log == old(self).log, final(self).finalized == old(self).finalized
+        ensures final(self).written@ == old(self).written@.push((*mode, format, old(self).finalized@.len())), final(self).log == old(self).log, final(self).finalized == old(self).finalized, final(self).customs == old(self).customs
     { unimplemented!() }
 }
 
@@ -127,14 +129,17 @@ pub enum DataOutputMode { File, Stdout, None }
 #[allow(clippy::upper_case_acronyms)]
 #[derive(PartialEq, Eq, Structural, Clone, Copy)]
 pub enum DataOutputFormat { JSON, TOML }
+pub uninterp spec fn cfg_custom() -> bool;   // custom checks configured
+pub uninterp spec fn cfg_view() -> bool;     // a view command
+pub uninterp spec fn cfg_out() -> DataOutputMode;   // data output mode
 pub uninterp spec fn cfg_stats_mode() -> DataOutputMode;               // --output-stats
 pub uninterp spec fn cfg_stats_format() -> Option<DataOutputFormat>;   // --stats-format
 pub struct Cfg;
 impl Cfg {
     #[verifier::external_body] pub fn input_stats_file(&self) -> (r: Option<&PathBuf>) ensures r.is_some() == stats_file().is_some(), r matches Some(p) ==> *p == stats_file().unwrap() { unimplemented!() }
-    #[verifier::external_body] pub fn custom_checks_enabled(&self) -> (r: bool) { unimplemented!() }
-    #[verifier::external_body] pub fn view(&self) -> (r: Option<ViewCmd>) { unimplemented!() }
-    #[verifier::external_body] pub fn output_mode(&self) -> (r: DataOutputMode) { unimplemented!() }
+    #[verifier::external_body] pub fn custom_checks_enabled(&self) -> (r: bool) ensures r == cfg_custom() { unimplemented!() }
+    #[verifier::external_body] pub fn view(&self) -> (r: Option<ViewCmd>) ensures r is Some == cfg_view() { unimplemented!() }
+    #[verifier::external_body] pub fn output_mode(&self) -> (r: DataOutputMode) ensures r == cfg_out() { unimplemented!() }
     #[verifier::external_body] pub fn stats_output_mode(&self) -> (r: DataOutputMode) ensures r == cfg_stats_mode() { unimplemented!() }
     #[verifier::external_body] pub fn stats_output_format(&self) -> (r: Option<DataOutputFormat>) ensures r == cfg_stats_format() { unimplemented!() }
     #[verifier::external_body] pub fn max_tolerate_errors(&self) -> (r: u32) ensures r == cfg_cap() { unimplemented!() }
@@ -201,6 +206,7 @@ pub struct Controller {
     pub end_processing_flag: Flag,
     pub any_errors_flag: Flag,
     pub spinner: Option<ProgressBar>,
+    pub printed: Ghost<nat>,   // reports printed
 }
 
 pub open spec fn is_error_kind(s: StatType) -> bool { s is Error || s is Fatal }
@@ -208,13 +214,13 @@ pub open spec fn is_error_kind(s: StatType) -> bool { s is Error || s is Fatal }
 impl Controller {
     #[verifier::external_body]
     fn set_spinner_msg(&mut self, new_msg: Msg)
-        ensures final(self).stats_collector == old(self).stats_collector, final(self).max_tolerate_errors == old(self).max_tolerate_errors,
+        ensures final(self).printed == old(self).printed, final(self).stats_collector == old(self).stats_collector, final(self).max_tolerate_errors == old(self).max_tolerate_errors,
             final(self).stats_send_chan == old(self).stats_send_chan, final(self).stats_recv_chan == old(self).stats_recv_chan,
             final(self).end_processing_flag == old(self).end_processing_flag, final(self).any_errors_flag == old(self).any_errors_flag
     { unimplemented!() }
     #[verifier::external_body]
     fn new_spinner_with_prefix(&mut self, prefix: Msg)
-        ensures final(self).stats_collector == old(self).stats_collector, final(self).max_tolerate_errors == old(self).max_tolerate_errors,
+        ensures final(self).printed == old(self).printed, final(self).stats_collector == old(self).stats_collector, final(self).max_tolerate_errors == old(self).max_tolerate_errors,
             final(self).stats_send_chan == old(self).stats_send_chan, final(self).stats_recv_chan == old(self).stats_recv_chan,
             final(self).end_processing_flag == old(self).end_processing_flag, final(self).any_errors_flag == old(self).any_errors_flag,
             final(self).spinner.is_some()
@@ -227,59 +233,16 @@ impl Controller {
     /// report printing (text): opaque
     #[verifier::external_body]
     fn print(&mut self)
-        ensures final(self).stats_collector == old(self).stats_collector, final(self).max_tolerate_errors == old(self).max_tolerate_errors,
+        ensures final(self).printed@ == old(self).printed@ + 1,
+            final(self).stats_collector == old(self).stats_collector, final(self).max_tolerate_errors == old(self).max_tolerate_errors,
             final(self).stats_send_chan == old(self).stats_send_chan, final(self).stats_recv_chan == old(self).stats_recv_chan,
             final(self).end_processing_flag == old(self).end_processing_flag, final(self).any_errors_flag == old(self).any_errors_flag
     { unimplemented!() }
 
-    /// first statements of Controller::run: the receive loop
-    fn site_run_loop(&mut self)
-        requires old(self).max_tolerate_errors == cfg_cap(), old(self).stats_recv_chan.taken@.len() == 0,
-        ensures
-            final(self).stats_send_chan is None, // [C14] the controller's own sender is dropped first, so the loop can end when the producers are done
-            final(self).stats_recv_chan.queue@.len() == 0 && final(self).stats_recv_chan.taken@ =~= old(self).stats_recv_chan.queue@, // [C14][C16] the loop ends only when every statistic sent has been received
-            final(self).stats_collector.log@ == applied_all(old(self).stats_collector.log@, old(self).stats_recv_chan.queue@, old(self).stats_recv_chan.queue@.len() as int), // [C14][C16] each one is handed to `update` exactly once, in arrival order
-            final(self).any_errors_flag == old(self).any_errors_flag, final(self).stats_collector.finalized == old(self).stats_collector.finalized, final(self).max_tolerate_errors == old(self).max_tolerate_errors,
-    {
-        let ghost q0 = self.stats_recv_chan.queue@;
-//@EXTRACT run_loop
-    }
+    /// what the collector has recorded when the receive loop is over
+    pub open spec fn received(log0: Seq<StatType>, q: Seq<StatType>) -> Seq<StatType> { applied_all(log0, q, q.len() as int) }
 
-    /// statement of Controller::run between the any-errors decision and the statistics-file comparison
-    fn site_run_write_stats(&mut self)
-        requires !(cfg_stats_mode() is None) ==> cfg_stats_format() is Some,   // clap: --output-stats `requires` --stats-format (CLI parsing not verified)
-        ensures
-            final(self).stats_collector.written@ == (if cfg_stats_mode() is None { old(self).stats_collector.written@ } else { old(self).stats_collector.written@.push((cfg_stats_mode(), cfg_stats_format().unwrap())) }), // [C15][C14] the statistics are written exactly when an output is configured, once, to that destination in that format
-            final(self).stats_collector.log == old(self).stats_collector.log, final(self).stats_collector.finalized == old(self).stats_collector.finalized, final(self).any_errors_flag == old(self).any_errors_flag,
-    {
-//@EXTRACT run_write_stats
-    }
-
-    /// last statements of Controller::run: comparison with a statistics file
-    fn site_run_stats_file(&mut self)
-        requires
-            // what Config::validate_args established before anything ran (unit v_validate_args) ...
-            stats_file() matches Some(p) ==> (p.ext matches Some(e) && (ext_is(e.id@, "json"@) || ext_is(e.id@, "toml"@))),
-            // ... and a well-formed, readable statistics file (C04 / C16 speak of well-formed configuration files)
-            stats_file().is_some() ==> stats_file_readable() && stats_file_parses(),
-        ensures
-            final(self).stats_collector == old(self).stats_collector,
-            final(self).any_errors_flag.v == (old(self).any_errors_flag.v || (stats_file().is_some() && stats_mismatch(old(self).stats_collector.log@))), // [C16][C15] a statistics mismatch sets the any-errors status; a matching file (or none) leaves it alone
-    {
-//@EXTRACT run_stats_file
-    }
-
-    /// statements of Controller::run after the receive loop, up to and including the any-errors decision
-    fn site_run_tail(&mut self)
-        requires old(self).max_tolerate_errors == cfg_cap(), errs(old(self).stats_collector.log@) >= 0,
-        ensures
-            final(self).any_errors_flag.v == (old(self).any_errors_flag.v || errs(final(self).stats_collector.log@) > 0 || fatal(final(self).stats_collector.log@)), // [C16] the any-errors status is set by any error, custom-check failure or fatal input error - also when it is the only one
-            errs(final(self).stats_collector.log@) >= errs(old(self).stats_collector.log@), fatal(final(self).stats_collector.log@) == fatal(old(self).stats_collector.log@), // [C16][C14] the end-of-run steps never lose an error
-            final(self).stats_collector.finalized@ == old(self).stats_collector.finalized@.push(cfg_mute()), // [C14][C05][C15] the statistics are finalised exactly once - sorted error list, distinct error codes, staves with errors, sorted links - before they are written out or compared with a statistics file, whether or not the report is shown
-    {
-//@EXTRACT run_tail
-        }
-    }
+//@EXTRACT run
 }
 
 } // verus!
